@@ -310,6 +310,13 @@ def validate_encoder(eng, n, rnd, out):
     return agree
 
 
+def safe_body(eng, obl, out, *a, **kw):
+    try:
+        return run_body(eng, obl, out, *a, **kw)
+    except mx.Inconclusive as e:
+        out.inconclusive.append("fn=%s reason=%s" % (BODY_FN.get(a[0], a[0]), e))
+
+
 def run(tier):
     t0 = time.time()
     out = common.Outcome(PID)
@@ -318,17 +325,17 @@ def run(tier):
     obl = e3.Obligations(PID)
     try:
         for t in TRAITS:
-            run_body(eng, obl, out, t, "struct", 1)
-            run_body(eng, obl, out, t, "enum", 1, 1)
+            safe_body(eng, obl, out, t, "struct", 1)
+            safe_body(eng, obl, out, t, "enum", 1, 1)
         # two fields / two variants: each field's free atoms restricted to one helper attribute (order, early exit, independence)
         pairs = [("ord", "partial_ord"), ("eq", "ord"), ("partial_eq", "hash"), ("partial_ord", "eq"), ("hash", "ord")]
         if tier != "thorough":
             pairs = [pairs[common.seed() % len(pairs)], pairs[(common.seed() + 2) % len(pairs)]]
         for a, b in pairs:
             for t in TRAITS:
-                run_body(eng, obl, out, t, "struct", 2, keep=[{a}, {b}], label=" %s/%s" % (a, b))
+                safe_body(eng, obl, out, t, "struct", 2, keep=[{a}, {b}], label=" %s/%s" % (a, b))
                 if tier == "thorough":
-                    run_body(eng, obl, out, t, "enum", 1, 2, keep=[{a}, {b}], label=" %s/%s" % (a, b))
+                    safe_body(eng, obl, out, t, "enum", 1, 2, keep=[{a}, {b}], label=" %s/%s" % (a, b))
         check_verify(eng, obl, out)
         check_isolation(eng, obl, out)
         validated = validate_encoder(eng, 120 if tier == "thorough" else 40, rnd, out)
